@@ -214,3 +214,30 @@ def snapshot_factor(phi):
         "values": [round(float(x), 12) for x in vals.ravel()],
         "states": {repr(k): [repr(s) for s in v] for k, v in sorted(phi.state_names.items(), key=lambda kv: repr(kv[0]))},
     }
+
+
+def make_frame(world, names, rows, columns=None, as_category=None, weights=None):
+    """rows of logical state indices -> DataFrame with real labels / state names.
+    str / mixed state names become categorical columns (declared categories = the variable's states),
+    int state names stay integer columns (pandas 3 'str' dtype columns are not accepted by pgmpy)."""
+    import pandas as pd
+
+    cols = list(range(world["n"])) if columns is None else list(columns)
+    data = {}
+    for v in cols:
+        vals = [names.S(v, r[v]) for r in rows]
+        sts = names.states[v]
+        all_int = all(isinstance(s, int) for s in sts)
+        if all_int and not as_category:
+            data[names.L(v)] = pd.Series(vals, dtype="int64")
+        else:
+            data[names.L(v)] = pd.Series(pd.Categorical(vals, categories=list(sts)))
+    df = pd.DataFrame(data, columns=[names.L(v) for v in cols])
+    if weights is not None:
+        df["_weight"] = [float(w) for w in weights]
+    return df
+
+
+def snapshot_frame(df):
+    return {"columns": [repr(c) for c in df.columns], "dtypes": [str(t) for t in df.dtypes], "index": [repr(i) for i in df.index],
+            "values": [[repr(x) for x in row] for row in df.itertuples(index=False, name=None)]}
